@@ -51,7 +51,7 @@ def c17_case(draw):
     flags = draw(st.lists(st.sampled_from(["validate", "dry_run", "rs_dry_run"]), max_size=2, unique=True)) if draw(st.booleans()) else []
     return {"middle": middle, "sink": sink, "invalid": invalid, "rs_runs": rs_runs, "fail_at": fail_at, "flags": flags,
             "ctx_mode": draw(st.sampled_from(["all", "all", "all", "drop_one", "extra"])),
-            "set_fix": draw(st.booleans()), "max_runs": draw(st.sampled_from([None, None, 1, 100])),
+            "set_fix": draw(st.booleans()), "max_runs": draw(st.sampled_from([None, 0, None, 1, 100])),
             "yaml_dry_run": draw(st.integers(0, 4)) == 0,
             "rs_in_file_ctx": draw(st.booleans())}
 
@@ -151,7 +151,7 @@ def build(case: Dict[str, Any]) -> Dict[str, Any]:
             rs["blocks"][0]["source"] = {"format": "csv", "path": "nope.csv"}
             reject = {2, 3}
         elif inv == "rs_cap":
-            rs["max_runs"] = n - 1
+            rs["max_runs"] = (n - 1) if case.get("rs_runs", 0) % 2 else 0  # a cap just below the plan, or a cap of zero
             if case["max_runs"] is None or case["max_runs"] < n:  # the CLI flag overrides the YAML value
                 reject = {3}
     elif fail_at is not None:
